@@ -13,3 +13,19 @@ OBLIGATIONS = [
         desc="for arbitrary source/target stat data and fchown/fchmod/futimens results: fchmod mode has no setuid/setgid/sticky, is never broader than the source's permission bits, equals them when the group could be set and otherwise gives group/other only the bits both had; owner/group/timestamps passed are the source's",
         bounds_q="all mode/uid/gid/time values", **COMMON),
 ]
+SUF = dict(src="sfx.c", lib="xz", qdefs=["LNAME=6"], tdefs=["LNAME=9"], qunwind=12, tunwind=15, flags=["--object-bits", "10"],
+           stubs=["message_warning/message_fatal: counters; xmalloc/xstrdup: malloc that succeeds; tuklib_mask_nonprint: identity"],
+           timeout_q=280, timeout_t=1800)
+OBLIGATIONS += [
+    Obligation(name="suffix_test_suffix", func="harness_test_suffix", functions=["test_suffix", "is_dir_sep"],
+        desc="test_suffix(suffix, name) for every name (any bytes incl. '/') and suffix: matches exactly when the name ends with the suffix, is longer than it, and the character before the suffix is not a directory separator",
+        bounds_q="names <= 6 bytes (quick) / 9 (thorough), suffix 1..3 bytes", **SUF),
+    Obligation(name="suffix_name_roundtrip", func="harness_name_roundtrip", functions=["suffix_get_dest_name", "compressed_name", "uncompressed_name", "test_suffix", "suffix_set"],
+        desc="for every name, format (xz, lzma, raw with -S) and custom suffix: compressing is refused exactly when the name already carries the target suffix; otherwise target = name + suffix, and decompressing that target maps back to the original name, except where the produced name ends in a built-in suffix that takes precedence (documented)",
+        bounds_q="names <= 6 bytes, custom suffix 1..3 bytes", **SUF),
+    Obligation(name="suffix_uncompressed_name", func="harness_uncompressed_name", functions=["uncompressed_name", "test_suffix"],
+        desc="decompression naming equals the spec table (.xz .txz->.tar .lzma .tlz->.tar .lz, then custom suffix; none in raw mode): skipped with a warning exactly when no known suffix, at least one file-name character remains",
+        bounds_q="names <= 6 bytes, custom suffix 1..3 bytes", **SUF),
+    Obligation(name="suffix_set_validation", func="harness_suffix_set", functions=["suffix_set", "has_dir_sep"],
+        desc="--suffix is rejected exactly when empty or containing '/'", bounds_q="suffix <= 3 bytes", **SUF),
+]
